@@ -50,7 +50,8 @@ func genC12(r *rt.Rand, tier string, idx int) *world.Scenario {
 			e := []world.Rev{{M: "known"}, {M: "known"}, {M: "stale", N: 1}, {M: "zero"}, {M: "tomb"}}[r.Intn(5)]
 			cl.Ops = append(cl.Ops, world.Op{K: "delete", Key: k, Rev: e})
 		case 3:
-			cl.Ops = append(cl.Ops, world.Op{K: "get", Key: k, Rev: []world.Rev{{M: "zero"}, {M: "hdr"}, {M: "hdrminus", N: 2}}[r.Intn(3)]})
+			// (also far back: whatever a compaction left of a key's older versions must be the same everywhere)
+			cl.Ops = append(cl.Ops, world.Op{K: "get", Key: k, Rev: []world.Rev{{M: "zero"}, {M: "hdr"}, {M: "hdrminus", N: 2}, {M: "init", N: int64(1 + r.Intn(n))}, {M: "stale", N: int64(1 + r.Intn(3))}}[r.Intn(5)]})
 		case 4:
 			lim := int64(0)
 			if r.Chance(0.5) {
@@ -61,6 +62,12 @@ func genC12(r *rt.Rand, tier string, idx int) *world.Scenario {
 			cl.Ops = append(cl.Ops, world.Op{K: "count", Key: prefix + "/", End: prefix + "0"})
 		case 6:
 			cl.Ops = append(cl.Ops, world.Op{K: "compact", Rev: []world.Rev{{M: "zero"}, {M: "hdrminus", N: 2}, {M: "init", N: 2}}[r.Intn(3)]})
+			// what is left of every key's past right after the compaction
+			for _, kk := range keys {
+				for j := 0; j < 2; j++ {
+					cl.Ops = append(cl.Ops, world.Op{K: "get", Key: kk, Rev: world.Rev{M: "init", N: int64(1 + r.Intn(i+2))}})
+				}
+			}
 		case 7:
 			wid++
 			cl.Ops = append(cl.Ops, world.Op{K: "watch", Key: []string{prefix + "/", prefix + "/a"}[r.Intn(2)], W: wid, Consume: "eager",
@@ -178,6 +185,7 @@ func c12Custom(t *testing.T, sc *world.Scenario, out *Outcome) {
 		w.Idle(2*time.Second, 3000)
 		w.DrainWatchers()
 		tr := transcript(w)
+		reportLockLeaks("C12", w, out)
 		out.Steps += w.S.StepNo()
 		out.Ops += len(w.Recs)
 		out.Hash = rt.Mix(out.Hash, w.S.Hash())
